@@ -16,6 +16,7 @@ import (
 	"sort"
 	"strings"
 	"sync"
+	"sync/atomic"
 	"time"
 
 	"github.com/jech/storrent/tracker"
@@ -54,6 +55,9 @@ type Scenario struct {
 	// udpcut: an announce reply holding K whole peer entries followed by J stray bytes
 	K int `json:"k"`
 	J int `json:"j"`
+	// udpfam: what the tracker does on each address family: "ok:<interval>", "error", "absent"
+	V4 string `json:"v4"`
+	V6 string `json:"v6"`
 }
 
 type Viol struct {
@@ -623,6 +627,115 @@ func runUDPCut(sc *Scenario, out *Out) {
 	out.StepsDone = 1
 }
 
+// runUDPFam: a UDP tracker named "localhost", reached over IPv4 and IPv6 in
+// parallel; each family answers, fails or is absent independently.  C15: the
+// announce succeeds iff one family does, and the tracker is not contacted again
+// before the larger of five minutes and the (largest) announced interval.
+func runUDPFam(sc *Scenario, out *Out) {
+	viol := func(key, what string) {
+		out.Violations = append(out.Violations, Viol{"C15", key, fmt.Sprintf("%s (IPv4: %s, IPv6: %s)", what, sc.V4, sc.V6), 0})
+	}
+	// The sandbox's "localhost" has no IPv6 address, so the two families cannot both be reachable under one name:
+	// the tracker is named by an address literal; the other family then fails at once (V4 or V6 must be "absent").
+	host := "127.0.0.1"
+	mode := sc.V4
+	if sc.V4 == "absent" {
+		host, mode = "[::1]", sc.V6
+	}
+	network := map[string]string{"127.0.0.1": "udp4", "[::1]": "udp6"}[host]
+	c, err := net.ListenUDP(network, &net.UDPAddr{IP: net.ParseIP(strings.Trim(host, "[]"))})
+	if err != nil {
+		out.Note = "listen " + host + ": " + err.Error()
+		return
+	}
+	defer c.Close()
+	port := c.LocalAddr().(*net.UDPAddr).Port
+	var contacts int32
+	serve := func(c *net.UDPConn, mode string) {
+		var interval uint32
+		fmt.Sscanf(mode, "ok:%d", &interval)
+		buf := make([]byte, 4096)
+		be := binary.BigEndian
+		for {
+			n, from, err := c.ReadFromUDP(buf)
+			if err != nil {
+				return
+			}
+			if n < 16 {
+				continue
+			}
+			action, tid := be.Uint32(buf[8:]), be.Uint32(buf[12:])
+			var rep []byte
+			switch {
+			case mode == "error":
+				atomic.AddInt32(&contacts, 1)
+				rep = be.AppendUint32(rep, 3)
+				rep = be.AppendUint32(rep, tid)
+				rep = append(rep, "go away"...)
+			case action == 0:
+				atomic.AddInt32(&contacts, 1)
+				rep = be.AppendUint32(rep, 0)
+				rep = be.AppendUint32(rep, tid)
+				rep = be.AppendUint64(rep, 0x1122334455667788)
+			default:
+				rep = be.AppendUint32(rep, 1)
+				rep = be.AppendUint32(rep, tid)
+				rep = be.AppendUint32(rep, interval)
+				rep = be.AppendUint32(rep, 1)
+				rep = be.AppendUint32(rep, 1)
+			}
+			c.WriteToUDP(rep, from)
+		}
+	}
+	go serve(c, mode)
+	tr := tracker.New(fmt.Sprintf("udp://%s:%d", host, port))
+	announce := func() (error, int32) {
+		before := atomic.LoadInt32(&contacts)
+		ctx, cancel := context.WithTimeout(context.Background(), 40*time.Second)
+		defer cancel()
+		err := tr.Announce(ctx, make([]byte, 20), make([]byte, 20), 50, 1000, 6881, 6881, "", func(netip.AddrPort) bool { return true })
+		return err, atomic.LoadInt32(&contacts) - before
+	}
+	want := int64(-1) // the largest interval announced by a family that answered
+	for _, m := range []string{sc.V4, sc.V6} {
+		var iv int64
+		if n, _ := fmt.Sscanf(m, "ok:%d", &iv); n == 1 && iv > want {
+			want = iv
+		}
+	}
+	aerr, n := announce()
+	if n == 0 {
+		out.Note = "the first announce contacted nobody"
+		return
+	}
+	if want >= 0 && aerr != nil {
+		viol("announce-fails-although-a-family-answered", fmt.Sprintf("the announce returned %v although one address family answered", aerr))
+	}
+	if s := tracker.VerifState(tr); s.Locked {
+		viol("stuck-busy", "the tracker is left in the busy state after the announce returned")
+	}
+	if want < 0 {
+		out.StepsDone = 1
+		return
+	}
+	// the earliest moment of the next contact: max(5 min, interval) (the code also applies a 15 min floor
+	// of its own when the interval is a minute or less: later than required, never earlier)
+	min := int64(300)
+	if want > min {
+		min = want
+	}
+	tracker.VerifShift(tr, time.Duration(min-20)*time.Second)
+	if err, n := announce(); n > 0 {
+		viol("contact-too-early", fmt.Sprintf("the tracker was contacted again %d s after an announce that was told an interval of %d s (returned %v)", min-20, want, err))
+	}
+	// anti-vacuity: much later it is contacted again
+	tracker.VerifShift(tr, 3*time.Hour)
+	if _, n := announce(); n == 0 {
+		out.Nonconf = append(out.Nonconf, "the tracker is not contacted again three hours later")
+	}
+	out.StepsDone = 3
+}
+
 // Handle is the worker-side entry point.
 func Handle(in []byte) any {
 	var sc Scenario
@@ -635,6 +748,8 @@ func Handle(in []byte) any {
 		runLoop(&sc, out)
 	case "udpcut":
 		runUDPCut(&sc, out)
+	case "udpfam":
+		runUDPFam(&sc, out)
 	case "http", "udp":
 		runLifecycle(&sc, out)
 	default:
